@@ -33,6 +33,10 @@ func writerValues(fn *ssa.Function) map[ssa.Value]bool {
 		if isIOWriter(p.Type()) && (destWriterSeeds == nil || destWriterSeeds[p]) {
 			w[p] = true
 		}
+		// a struct that carries the destination (a small "emitter" type holding the writer and what goes with it)
+		if (destWriterSeeds == nil || destWriterSeeds[p]) && carriesWriter(p.Type()) {
+			w[p] = true
+		}
 	}
 	for _, fv := range fn.FreeVars {
 		if destWriterSeeds != nil && !destWriterSeeds[fv] {
@@ -95,6 +99,25 @@ func writerValues(fn *ssa.Function) map[ssa.Value]bool {
 				// a local variable holding the writer: stores of a writer into it
 				for _, r := range referrersOf(x) {
 					if st, ok := r.(*ssa.Store); ok && st.Addr == x && w[st.Val] {
+						w[v], changed = true, true
+					}
+					// ... or a struct one of whose fields is given the writer
+					if fa, ok := r.(*ssa.FieldAddr); ok && fa.X == ssa.Value(x) {
+						for _, r2 := range referrersOf(fa) {
+							if st, ok := r2.(*ssa.Store); ok && st.Addr == ssa.Value(fa) && w[st.Val] {
+								w[v], changed = true, true
+							}
+						}
+					}
+				}
+			case *ssa.Field:
+				// the writer (or a nested carrier) taken out of a struct that carries it
+				if w[x.X] && (isIOWriter(x.Type()) || carriesWriter(x.Type())) {
+					w[v], changed = true, true
+				}
+			case *ssa.FieldAddr:
+				if w[x.X] {
+					if pt, ok := x.Type().(*types.Pointer); ok && (isIOWriter(pt.Elem()) || carriesWriter(pt.Elem())) {
 						w[v], changed = true, true
 					}
 				}
@@ -523,4 +546,29 @@ func destinationWriters(c *Ctx) map[ssa.Value]bool {
 	}
 	destWriterSeeds = nil
 	return seeds
+}
+
+// carriesWriter: t is a struct (or pointer to one) with a field of type io.Writer, directly or one level down.
+func carriesWriter(t types.Type) bool {
+	return carriesWriterDepth(t, 0)
+}
+
+func carriesWriterDepth(t types.Type, depth int) bool {
+	if depth > 2 {
+		return false
+	}
+	if pt, ok := t.Underlying().(*types.Pointer); ok {
+		t = pt.Elem()
+	}
+	st, ok := t.Underlying().(*types.Struct)
+	if !ok {
+		return false
+	}
+	for i := 0; i < st.NumFields(); i++ {
+		ft := st.Field(i).Type()
+		if isIOWriter(ft) || carriesWriterDepth(ft, depth+1) {
+			return true
+		}
+	}
+	return false
 }
